@@ -293,6 +293,12 @@ theorem alignGuardDrop_quiet {s s' : State} {n : Nat} (h : alignGuardDrop cfg s 
   unfold alignGuardDrop at h
   ls_split h with first | exact Quiet.refl _ | exact Quiet.setPos _ _ _
 
+theorem alignChunkAt_quiet {s s' : State} {n : Nat} {st : Cur} (h : alignChunkAt cfg s n st = .ok s') :
+    Quiet cfg s s' := by
+  rcases alignChunkAt_cases h with rfl | ⟨j, c, p, _, _, _, _, rfl⟩
+  · exact Quiet.refl _
+  · exact Quiet.setPos _ _ _
+
 theorem setPosAlignFrom_quiet {s s' : State} {a b : Nat} (h : setPosAlignFrom cfg s a b = .ok s') : Quiet cfg s s' := by
   unfold setPosAlignFrom at h
   ls_split h with exact Quiet.setCurPos _ _
@@ -453,7 +459,8 @@ macro_rules
   | `(tactic| ls_peel0) =>
     `(tactic| first
       | refine LS.quiet_step ?_ (setPosAlignFrom_quiet (by assumption))
-      | refine LS.quiet_step ?_ (alignGuardDrop_quiet (by assumption)))
+      | refine LS.quiet_step ?_ (alignGuardDrop_quiet (by assumption))
+      | refine LS.quiet_step ?_ (alignChunkAt_quiet (by assumption)))
 
 theorem allocatePreparedSlice_ls {s s' : State} {ptr len cap esize ealign : Nat} {rev : Bool} {a : Nat}
     (h : allocatePreparedSlice cfg s ptr len cap esize ealign rev = .ok (s', a)) : LedgerStep cfg s s' := by
